@@ -11,6 +11,18 @@ def run(drv, pid, tier, seed, args):
     outdir = os.path.join(drv.BUILD, "out", "%s-%s-%d" % (pid, tier, os.getpid()))
     shutil.rmtree(outdir, ignore_errors=True)
     os.makedirs(outdir, exist_ok=True)
+    if args.get("replay") and is_controlled(args["replay"]):
+        import c02
+        b2 = c02.build_shimmed(drv, os.environ.get("VERIF_REPO", "/repo"), out_name="C01-controlled.test")
+        if not b2:
+            return 2
+        rc, out = drv.replay_one(pid, b2, args["replay"], extra_env={"VERIF_LIN_MODE": "safety", "GOMAXPROCS": "2"})
+        drv.sys_module.stdout.write(out)
+        shutil.rmtree(outdir, ignore_errors=True)
+        if "RAW-VIOLATION" in out or rc in (3, 4):
+            drv.say("VIOLATION property=%s replay=%s" % (pid, args["replay"]))
+            return 1
+        return 0 if rc == 0 else 2
     if args.get("replay"):
         env = {"GORACE": "log_path=%s halt_on_error=0" % os.path.join(outdir, "race-replay")}
         rc, out = drv.replay_one(pid, binary, args["replay"], extra_env=env)
@@ -41,12 +53,60 @@ def run(drv, pid, tier, seed, args):
             problems.append("shard %d exited with status %s, see %s" % (i, rc, log))
         if rc in (1, 66) and not violations and not problems:
             problems.append("shard %d failed without a violation record:\n%s" % (i, open(log).read()[-2500:]))
+    # second stage: the controlled scheduler over all public methods (deadlock / livelock / interleaving-dependent panics)
+    if not timed_out:
+        ev2, v3, p3, to2, outdir2 = controlled_stage(drv, pid, tier, seed, nshards, max(60, drv.CAPS[tier] - (time.time() - t0)))
+        violations += v3
+        problems += p3
+        timed_out = timed_out or to2
+        if ev2:
+            c1, c2 = ev["coverage"], ev2["coverage"]
+            c1["evaluations"] += c2.get("evaluations", 0)
+            c1["distinct_nontrivial"] += c2.get("distinct_nontrivial", 0)
+            c1["rule"] = c1.get("rule", "") + " || " + c2.get("rule", "")
+            c1["samples"] = (c1.get("samples") or [])[:8] + (c2.get("samples") or [])[:4]
+            c1["checks"].update(c2.get("checks") or {})
+            c1["exhaustive"] = bool(c1.get("exhaustive")) and bool(c2.get("exhaustive"))
+        if outdir2 and not args.get("keep") and not v3 and not p3:
+            shutil.rmtree(outdir2, ignore_errors=True)
     ev["violations"] = len(violations)
     ev["wall_s"] = round(time.time() - t0, 2)
     code = drv.finish(pid, ev, violations, known, problems, timed_out)
     if not args.get("keep") and code == 0:
         shutil.rmtree(outdir, ignore_errors=True)
     return code
+
+
+def controlled_stage(drv, pid, tier, seed, nshards, cap):
+    """Runs the lin harness in safety mode (built against the shimmed scratch copy). Returns (evidence, violations, problems, timed_out, outdir)."""
+    import c02
+    t1 = time.time()
+    repo = os.environ.get("VERIF_REPO", "/repo")
+    binary = c02.build_shimmed(drv, repo, out_name="C01-controlled.test")
+    if not binary:
+        return None, [], ["the controlled-scheduler harness did not build"], False, None
+    outdir = os.path.join(drv.BUILD, "out", "%s-controlled-%s-%d" % (pid, tier, os.getpid()))
+    shutil.rmtree(outdir, ignore_errors=True)
+    results, timed_out = drv.run_shards(pid, binary, tier, seed, nshards, outdir, cap,
+                                        extra_env={"GOMAXPROCS": "2", "VERIF_LIN_MODE": "safety"})
+    ev, violations, known, problems, _ = drv.merge(pid, tier, seed, outdir, results, t1)
+    v2, p2 = drv.handle_stuck(pid, binary, results, outdir, extra_env={"VERIF_LIN_MODE": "safety"})
+    violations += v2
+    problems += p2
+    for i, rc, log in results:
+        if rc not in (0, 1, 3, 4) and not timed_out:
+            problems.append("controlled stage: shard %d exited with status %s, see %s" % (i, rc, log))
+        if rc == 1 and not violations:
+            problems.append("controlled stage: shard %d failed without a violation record:\n%s" % (i, open(log).read()[-1500:]))
+    return ev, violations, problems, timed_out, outdir
+
+
+def is_controlled(path):
+    import json
+    try:
+        return str(json.load(open(path)).get("check", "")).startswith("controlled")
+    except Exception:
+        return False
 
 
 def run_shards_race(drv, pid, binary, tier, seed, nshards, outdir, cap):
@@ -81,4 +141,6 @@ def run_shards_race(drv, pid, binary, tier, seed, nshards, outdir, cap):
 
 
 def setup(drv):
-    return drv.build("C01", "./conc/stress", race=True) is not None
+    import c02
+    ok = drv.build("C01", "./conc/stress", race=True) is not None
+    return c02.build_shimmed(drv, "/repo", out_name="C01-controlled.test") is not None and ok
